@@ -142,6 +142,17 @@ class Downloader(ABC):
                 tasks, return_when=asyncio.FIRST_COMPLETED
             )
 
+            for task in done_tasks:
+                if task.cancelled() or task.exception() is None:
+                    continue
+
+                # A failed transfer task (e.g. local I/O error) must fail the run
+                self._error_count += 1
+                self._log.error(
+                    "Unexpected error while downloading file:"
+                    f" {task.exception()!r}"
+                )
+
             tasks.difference_update(done_tasks)
 
         self._download_start = datetime.now()
